@@ -135,10 +135,9 @@ impl LldpService {
 /// loop of `LldpService::run` does with the octets of one received frame.
 #[cfg(erbium_verif)]
 pub mod verif {
-    use crate::pktparser::Deserialise as _;
     pub fn decode_frame(
         frame: &[u8],
     ) -> Result<super::lldppkt::LldpPacket, crate::pktparser::ParseError> {
-        super::lldppkt::LldpPacket::from_wire(&mut crate::pktparser::Buffer::new(&frame[14..]))
+        super::decode_frame(frame)
     }
 }
